@@ -11,7 +11,7 @@ temporary() / temporary_phase() context managers. The first stream (gen_case) is
 """
 import numpy as np
 import thermosteam as tmo
-from vt.core import case_hash
+from vt.core import case_hash, exc_key
 from vt.common import thermo_of, phase_ledger, stream_invariant
 
 PID = 'C12'
@@ -23,9 +23,13 @@ RULE = ('histories of 5-30 steps on one stream (5 chemicals) starting from a ran
         'accessors also on single-phase streams whose phase lies outside the solver pair (UndefinedPhase counted as refusal), writes through freshly fetched views, views HELD across conversions '
         '(only while the stream stays a MultiStream and keeps the label) and the parent by imol item/pair/row, imass, set_flow, mol array item/slice, empty, scale, copy_like / mix_from of a fresh stream, read back through imol / imass / get_flow / mol, '
         'judged on the per-(phase, CAS) ledger; for v in s / len(s) / Stream[label]; T/P through attributes, thermal_condition and copy_thermal_condition on either side, thermal-condition identity after every conversion; '
-        'Stream.from_data / MultiStream.from_data(get_data()), set_data onto another stream object, with s.temporary(flow, T, P) incl. inner conversions and a raising body, with s.temporary_phase(label)')
+        'Stream.from_data / MultiStream.from_data(get_data()), set_data onto another stream object, with s.temporary(flow, T, P) incl. inner conversions and a raising body, with s.temporary_phase(label). '
+        'phases= is judged against the ASSIGNED label set for every non-empty target (one label: exactly that label and a single-phase stream; keys carry exact-label-held / other-case-held / both-cases-held / empty-stream); '
+        'refusals are granted only for the documented exception AND message AND input class: ValueError "at least one phase" for an empty set, RuntimeError "invalid phase <arg>" for phase = multi-character string on a single-phase stream, '
+        'UndefinedPhase of an accessor only on a NON-EMPTY single-phase stream outside the solver pair, UndefinedPhase of Stream[label of another phase group] (a normal return there is a violation; the unchanged library fails to raise UndefinedPhase there and raises AttributeError (module thermosteam has no attribute UndefinedPhase) instead - exactly that message from Stream.__getitem__ is counted as the same refusal under its own reason, the exception type being no clause of C12)')
 MIN_NONTRIVIAL = {'quick': 300, 'thorough': 10000}
-ASSUMPTIONS = ['target phase sets contain every non-empty phase up to case (the quantifier of C12)', 'equilibrium solver objects are only requested, never called']
+ASSUMPTIONS = ['target phase sets contain every non-empty phase up to case (the quantifier of C12)', 'equilibrium solver objects are only requested, never called',
+               'phases = one label gives a single-phase stream (tests/test_stream.py asserts type(stream) is Stream after stream.phases = "s")']
 IDS = ('Water', 'Ethanol', 'Octane', 'CO2', 'Glycerol')
 PH = 'slgSL'
 
@@ -36,7 +40,9 @@ def required(tier):
             'v2:write-kind/imass', 'v2:write-kind/set_flow-kg', 'v2:write-kind/mol-item', 'v2:write-kind/mol-row', 'v2:write-kind/empty', 'v2:write-kind/scale', 'v2:write-kind/copy_like', 'v2:write-kind/mix_from',
             'v2:held-probe', 'v2:held-across/phases=', 'v2:held-across/accessor', 'v2:held-across/restore', 'v2:iter', 'v2:getitem-single', 'v2:from_data', 'v2:restore-other', 'v2:temporary', 'v2:temporary/raise',
             'v2:temporary/conv', 'v2:temp-phase', 'v2:phases-form/str', 'v2:phases-form/dup', 'v2:phases-form/iter', 'v2:phase-multichar/multi', 'v2:empty/phase=any-label',
-            'v2:empty/reduce', 'v2:empty/as_stream', 'v2:empty/target-set-empty', 'v2:thermal-identity', 'v2:TP/view-ctc', 'v2:TP/parent-ctc', 'v2:TP/view-tc', 'v2:TP/held-attr']
+            'v2:empty/reduce', 'v2:empty/as_stream', 'v2:empty/target-set-empty', 'v2:thermal-identity', 'v2:TP/view-ctc', 'v2:TP/parent-ctc', 'v2:TP/view-tc', 'v2:TP/held-attr',
+            'phases=/single-target', 'phases=/single-target/exact-label-held', 'phases=/single-target/other-case-held', 'v2:phases=/single-target', 'v2:phases=/single-target/exact-label-held',
+            'v2:phases=/single-target/other-case-held', 'v2:getitem-single/foreign-judged', 'v2:phase-multichar/single-refused']
 
 
 def swap(p):
@@ -59,6 +65,15 @@ def relabel(flows, labels):
 
 def nonempty_labels(flows):
     return {p for (p, c), v in flows.items() if v}
+
+
+def single_target_class(target, ne):
+    """input class of a one-label phases= assignment: where the material is relative to the assigned label"""
+    p, = target
+    if not ne: return 'empty-stream'
+    if ne == {p}: return 'exact-label-held'
+    if p in ne: return 'both-cases-held'       # material under p and under its other case: merged under p
+    return 'other-case-held'                   # material only under the other case of p: the labels are interchangeable since the exact one is absent
 
 
 def gen_case(rng):
@@ -111,10 +126,15 @@ def run_case(case, rec):
                 s.phases = tuple(target)
                 after = snap(s)
                 labels = set(after['phases'])
-                exp = relabel(before['flows'], labels)
+                exp = relabel(before['flows'], target)      # the expected labels are the ASSIGNED ones, never the ones the library produced
                 rec.check(after['flows'] == exp, 'phases=', f'content/{"multi" if multi else "single"}-to-{len(target)}', f'step {k}: phases={sorted(target)} from {before["phases"]}: content {after["flows"]} expected {exp}')
                 rec.check(after['T'] == before['T'] and after['P'] == before['P'], 'phases=', 'TP', f'step {k}: phases= changed T/P')
                 if len(target) >= 2: rec.check(labels == target, 'phases=', 'labels', f'step {k}: phases={sorted(target)} gave labels {sorted(labels)}')
+                else:
+                    ic = single_target_class(target, ne)
+                    rec.check(labels == target, 'phases=', f'labels/single-target/{mode(multi)}/{ic}', f'step {k}: phases={sorted(target)} on {before["cls"]}{before["phases"]} (non-empty {sorted(ne)}) gave labels {sorted(labels)}')
+                    rec.check(after['cls'] == 'Stream', 'phases=', f'class/single-target/{mode(multi)}', f'step {k}: phases={sorted(target)} (one label) on {before["cls"]}{before["phases"]} gave a {after["cls"]}, not a single-phase stream')
+                    rec.hit('phases=/single-target'); rec.hit('phases=/single-target/' + ic)
                 eff += 1
             elif t == 'phase':
                 if len(groups) > 1: continue
@@ -125,6 +145,7 @@ def run_case(case, rec):
                 exp = {}
                 for (q, c), v in before['flows'].items(): exp[(p, c)] = exp.get((p, c), 0.0) + v
                 rec.check(after['flows'] == exp and after['cls'] == 'Stream', 'phase=', f'content/{"multi" if multi else "single"}', f'step {k}: phase={p!r} from {before["phases"]}: {after} expected flows {exp}')
+                rec.check(after['phases'] == (p,), 'phase=', f'label/{mode(multi)}{"" if groups else "-empty"}', f'step {k}: phase={p!r} on {before["cls"]}{before["phases"]} gave labels {after["phases"]}')
                 rec.check(after['T'] == before['T'] and after['P'] == before['P'], 'phase=', 'TP', f'step {k}: phase= changed T/P')
                 eff += 1
             elif t == 'reduce':
@@ -411,7 +432,8 @@ def run_case2(case, rec):
                         # an empty target set (only possible for an empty stream): refused by the library ('at least one phase must be given')
                         try:
                             s.phases = arg
-                        except ValueError:
+                        except ValueError as e:
+                            if 'at least one phase' not in str(e): raise     # only the documented refusal of an empty set; any other ValueError is reported
                             rec.refuse('phases = <empty set> refused (ValueError)')
                             a2 = snap(s)
                             rec.check(a2 == before, 'phases=', 'empty-set/refusal-leaves-stream', f'step {k}: refused phases=() changed the stream: {a2} was {before}')
@@ -424,7 +446,9 @@ def run_case2(case, rec):
                     try:
                         s.phase = arg
                     except RuntimeError as e:
-                        if multi: raise
+                        # documented refusal: check_phase -> RuntimeError("invalid phase 'xy' encountered; ..."), warranted because the stream is single-phase and the string has >= 2 characters;
+                        # any other RuntimeError ('phase is locked', one from deeper code) is reported by the outer handler
+                        if multi or len(arg) < 2 or 'invalid phase' not in str(e) or repr(arg) not in str(e): raise
                         rec.refuse('phase = multi-character string on a single-phase stream: RuntimeError (invalid phase)'); rec.hit('v2:phase-multichar/single-refused')
                         a2 = snap(s)
                         rec.check(a2 == before, 'phase=', 'multichar/refusal-leaves-stream', f'step {k}: refused phase={arg!r} changed the stream: {a2} was {before}')
@@ -433,10 +457,15 @@ def run_case2(case, rec):
                     tag = 'phase-multichar'; sfx = 'multichar/'
                 after = snap(s)
                 labels = set(after['phases'])
-                exp = relabel(before['flows'], labels)
+                exp = relabel(before['flows'], target or labels)      # the expected labels are the ASSIGNED ones (an accepted empty set: the stream is empty, nothing to relabel)
                 rec.check(after['flows'] == exp, clause, f'{sfx}content/{mode(multi)}-to-{min(len(target), 2)}', f'step {k}: {tag} {arg!r} from {before["phases"]}: content {after["flows"]} expected {exp}')
                 rec.check(after['T'] == before['T'] and after['P'] == before['P'], clause, f'{sfx}TP', f'step {k}: {tag} changed T/P')
                 if len(target) >= 2: rec.check(labels == target and after['cls'] == 'MultiStream', clause, f'{sfx}labels', f'step {k}: {tag} {sorted(target)} gave {after["cls"]} with labels {sorted(labels)}')
+                elif len(target) == 1:
+                    ic = single_target_class(target, ne)
+                    rec.check(labels == target, clause, f'{sfx}labels/single-target/{mode(multi)}/{ic}', f'step {k}: {tag} {arg!r} on {before["cls"]}{before["phases"]} (non-empty {sorted(ne)}) gave labels {sorted(labels)}')
+                    rec.check(after['cls'] == 'Stream', clause, f'{sfx}class/single-target/{mode(multi)}', f'step {k}: {tag} {arg!r} (one label) on {before["cls"]}{before["phases"]} gave a {after["cls"]}, not a single-phase stream')
+                    rec.hit('v2:phases=/single-target'); rec.hit('v2:phases=/single-target/' + ic)
                 after_conversion(tag, k, st)
                 eff += 1
             elif t == 'phase':
@@ -484,7 +513,9 @@ def run_case2(case, rec):
                 try:
                     getattr(s, which)
                 except tmo.exceptions.UndefinedPhase as e:
-                    if multi: raise
+                    # warranted only for a NON-EMPTY single-phase stream whose phase group is not in the solver pair (outside the quantifier); inside the pair, for
+                    # an empty stream or for a multi-phase stream the accessor must succeed
+                    if multi or not (outside and ne): raise
                     rec.refuse(f'.{which} on a single-phase stream in phase {s.phase!r}: UndefinedPhase'); rec.hit('v2:accessor-refused')
                     a2 = snap(s)
                     rec.check(a2 == before, 'accessor', f'{which}/refusal-leaves-stream', f'step {k}: refused .{which} changed the stream: {a2} was {before}')
@@ -744,12 +775,16 @@ def run_case2(case, rec):
                 rec.check(s.imol[ID] == w and x.T == s.T and x.P == s.P, 'iteration', 'single/getitem-own-label', f'step {k}: Stream[{lab!r}] on a stream in phase {cur!r} is not a live view of it')
                 s.imol[ID] = old
                 rec.check(snap(s) == before, 'iteration', 'single/getitem-neutral', f'step {k}: probing Stream[{lab!r}] changed the stream')
-                other = next(q for q in PH if q.lower() != cur.lower())
+                foreign = [q for q in PH if q.lower() != cur.lower()]
+                other = foreign[st['k'] % len(foreign)]
                 try:
-                    s[other]
-                except Exception:
-                    rec.refuse('Stream[label of another phase group] raises')
-                rec.hit('v2:getitem-single')
+                    y = s[other]
+                except tmo.exceptions.UndefinedPhase:      # the documented refusal; any other exception type is reported by the outer handler
+                    rec.refuse('Stream[label of another phase group] raises'); y = None; raised = True
+                else: raised = False
+                rec.check(raised, 'iteration', 'single/getitem-foreign-label-accepted', f'step {k}: Stream[{other!r}] on a single-phase stream in phase {cur!r} returned {type(y).__name__} (phase {getattr(y, "phase", None)!r}) instead of raising UndefinedPhase')
+                rec.check(snap(s) == before, 'iteration', 'single/getitem-foreign-neutral', f'step {k}: asking a single-phase stream in phase {cur!r} for Stream[{other!r}] changed the stream')
+                rec.hit('v2:getitem-single'); rec.hit('v2:getitem-single/foreign-judged')
         except Exception as e:
             cl = 'zero-phases' if zero and t not in ('from_data', 'restore-other') else clause     # a MultiStream left with no phase at all by phases=() on an empty stream
             rec.exception(cl, e, what=f'step {k} {st} on {before["cls"]}{before["phases"]} (non-empty {sorted(ne)}) raised {type(e).__name__}: {str(e)[:150]}')
